@@ -211,6 +211,7 @@
 
 #ifndef _DOXYGEN_SKIP
 #define MAX_LINESIZE    (1024*4)
+#define MAX_SECTIONLEVEL (100)  // limit of nested sections
 
 /* internal functions */
 static int addoptions(qaconf_t *qaconf, const qaconf_option_t *options);
@@ -922,6 +923,11 @@ static int _parse_inline(qaconf_t *qaconf, FILE *fp, uint8_t flags,
 
         // Section handling
         if (cbdata->otype == QAC_OTYPE_SECTIONOPEN) {
+            // Every level keeps a line buffer on the stack, limit the depth.
+            if (cbdata->level >= MAX_SECTIONLEVEL) {
+                EXITLOOP("Sections are nested too deeply.");
+            }
+
             // Enter recursive call
             DEBUG("Entering next level %d.", cbdata->level+1);
             int optcount2 = _parse_inline(qaconf, fp, flags, newsectionid,
